@@ -7,8 +7,8 @@ R1 metric hook, log hook and captured timeline receive the same sequence after
 R2 shape retry^n . terminal; the i-th retry has attempt = i and sleep_s = the
    applied delay; exactly one terminal event and nothing after it
 R3 terminal is `success` iff the run succeeded; otherwise its stop_reason tag
-   equals the stop reason delivered to the caller (in the holds-set where call
-   mode re-raises), class/err/cause describe the final failure, operation tag
+   equals the stop reason delivered to the caller (whether that reason is the
+   right one is C03's business), class/err/cause describe the final failure, operation tag
    present iff an operation name was given; abort events carry only
    stop_reason and operation
 R4 breaker events: attempt 0, sleep_s 0, `state` tag = the breaker state after
@@ -19,7 +19,7 @@ from __future__ import annotations
 import random
 
 from .. import gen as G
-from ..facts import (BREAKER_EVENTS, TERMINAL_EVENTS, V, analyze, delivered_stop_reason, entry_name, final_failure_candidates,
+from ..facts import (BREAKER_EVENTS, TERMINAL_EVENTS, V, analyze, delivered_stop_reason, entry_name, final_failure_candidates, feq,
                      pre_aborted, rejected)
 from . import common
 
@@ -148,9 +148,11 @@ def oracle(scn, trace):
                 out.append(V("R2", "i-th retry event does not carry attempt=i", {"call": cid, "i": i, "event": e, "entry": ent}))
         granted = [inf for inf in infos if inf.n_retry]
         for e, inf in zip(retries, granted):
-            exp = inf.expected_delay
-            if exp is not None and e[2] != exp and str(e[2]) != str(exp):
-                out.append(V("R2", "retry event sleep_s is not the applied delay", {"call": cid, "event": e, "expected": exp, "entry": ent}))
+            # "the delay applied" = what the sleep handler / before_sleep / sleeper were given (whether that value is
+            # the right one is C05's business)
+            wit = [x["delay"] for x in inf.sleeps] + [x["sleep_s"] for x in inf.handlers] + [x["sleep_s"] for x in inf.before]
+            if wit and not feq(e[2], wit[0]):
+                out.append(V("R2", "retry event sleep_s is not the applied delay", {"call": cid, "event": e, "applied": wit[0], "entry": ent}))
             if e[3] != inf.a.fclass or e[5] != inf.a.cause:
                 out.append(V("R2", "retry event class/cause do not describe the failed attempt", {"call": cid, "event": e, "class": inf.a.fclass, "cause": inf.a.cause, "entry": ent}))
         # ---- R3 terminal
@@ -171,8 +173,6 @@ def oracle(scn, trace):
             src = "outcome"
         if (delivered is not None or src == "outcome") and term[4] != delivered:
             out.append(V("R3", "terminal stop_reason tag differs from the delivered stop reason", {"call": cid, "tag": term[4], "delivered": delivered, "entry": ent}))
-        if term[4] not in holds:
-            out.append(V("R3", f"terminal stop_reason {term[4]} does not hold", {"call": cid, "holds": sorted(holds), "terminal": term, "entry": ent}))
         # tags of the terminal event (taken from the raw metric/log event)
         raw = None
         for src_list, key in ((m_main, "tags"), (l_main, "fields")):
